@@ -102,6 +102,27 @@ func (f *FS) Resolve(name string) string {
 	return strings.Join(out, "/")
 }
 
+// ResolveParent resolves the directory part of a name and leaves its last
+// component alone: what rename, remove and lstat act on is the entry itself,
+// link or not.
+func (f *FS) ResolveParent(name string) string {
+	i := strings.LastIndexByte(name, '/')
+	if i <= 0 {
+		if strings.HasPrefix(name, "/") {
+			return name
+		}
+		return name
+	}
+	if strings.HasPrefix(name, "/") && !strings.HasPrefix(name, Cwd+"/") {
+		return name
+	}
+	dir := f.Resolve(name[:i])
+	if dir == "." {
+		return name[i+1:]
+	}
+	return dir + "/" + name[i+1:]
+}
+
 func NewFS() *FS {
 	return &FS{Files: map[string][]byte{}, Dirs: map[string]bool{".": true}, ReadOnly: map[string]bool{}, Unreadable: map[string]bool{}, Links: map[string]string{}, Fifos: map[string]bool{}, SizeUnknown: map[string]bool{}}
 }
@@ -844,6 +865,7 @@ type Info struct {
 // Lstat implements os.Lstat: a symbolic link is reported as such.
 func Lstat(name string) (Info, error) {
 	p := Cur
+	name = p.FS.ResolveParent(name)
 	if _, ok := p.FS.Links[name]; ok {
 		p.Steps = append(p.Steps, StepRec{N: len(p.Steps), Kind: "lstat", Arg: name})
 		return Info{Name: name, Link: true, Clock: p.Clock}, nil
@@ -942,6 +964,7 @@ func (h *Handle) Sync() error {
 func Remove(name string) error {
 	p := Cur
 	p.Steps = append(p.Steps, StepRec{N: len(p.Steps), Kind: "remove", Arg: name})
+	name = p.FS.ResolveParent(name)
 	if _, ok := p.FS.Links[name]; ok {
 		delete(p.FS.Links, name) // removes the link, not what it points to
 		return nil
@@ -973,6 +996,7 @@ func Remove(name string) error {
 func Rename(from, to string) error {
 	p := Cur
 	p.Steps = append(p.Steps, StepRec{N: len(p.Steps), Kind: "rename", Arg: from + " -> " + to})
+	from, to = p.FS.ResolveParent(from), p.FS.ResolveParent(to)
 	d, ok := p.FS.Files[from]
 	if !ok {
 		return &fs.PathError{Op: "rename", Path: from, Err: syscall.ENOENT}
@@ -992,7 +1016,16 @@ func Rename(from, to string) error {
 func Mkdir(name string) error {
 	p := Cur
 	p.Steps = append(p.Steps, StepRec{N: len(p.Steps), Kind: "mkdir", Arg: name})
-	p.FS.Dirs[name] = true
+	name = p.FS.Resolve(name)
+	if _, isFile := p.FS.Files[name]; isFile {
+		return pathErr("mkdir", name, syscall.EEXIST)
+	}
+	for d := name; d != "." && d != "/" && d != ""; d = dirOf(d) {
+		if _, isFile := p.FS.Files[d]; isFile {
+			return pathErr("mkdir", name, syscall.ENOTDIR)
+		}
+		p.FS.Dirs[d] = true
+	}
 	return nil
 }
 
